@@ -13,7 +13,9 @@ ASSUME = ["per-call I/O faults are injected with strace (-e inject=pread64|pwrit
           "skipped and reported, truncation still decides", "results are compared call by call with the fault-free run of the same calls",
           "TLC/SANY, Go toolchain"]
 REF = ["with_groups.h5", "test_attributes.h5", "compound_test.h5", "string_test.h5", "test_3d_chunked.h5", "v0.h5", "v3.h5",
-       "various_types.h5", "with_attributes.h5", "vlen_strings.h5"]
+       "various_types.h5", "with_attributes.h5", "vlen_strings.h5",
+       # version 0 files of the reference library with nested groups (cached symbol tables) and continuation blocks
+       "hdf5_official/tname-amp.h5", "hdf5_official/tgroup.h5", "hdf5_official/tattr.h5", "hdf5_official/torderattr.h5"]
 
 
 def strace_ok():
@@ -56,7 +58,7 @@ def run(ctx):
     for r in REF:
         src = os.path.join(ctx.repo, "testdata", r)
         if os.path.exists(src) and os.path.getsize(src) > 0:
-            dst = os.path.join(ctx.files, "ref_" + r)
+            dst = os.path.join(ctx.files, "ref_" + os.path.basename(r))
             shutil.copy(src, dst)
             subjects.append(dst)
     # 2. truncation: every length for files <= 8 KiB (quick: every length of the library files, stride for the others)
